@@ -546,7 +546,7 @@ func shortCopyIsError(r *core.Report, rule string) {
 	if f == nil {
 		return
 	}
-	info := f.Pkg.TypesInfo
+	_ = f.Pkg.TypesInfo
 	g := p.Graph(f)
 	okAll, n := true, 0
 	for _, rn := range g.Returns() {
@@ -557,7 +557,7 @@ func shortCopyIsError(r *core.Report, rule string) {
 		ok := false
 		for _, fc := range g.FactsAt(rn) {
 			be, isBin := core.Unparen(fc.Expr).(*ast.BinaryExpr)
-			if isBin && fc.Tag == nil && mentionsLenOf(info, fc.Expr, f.ParamObj(0)) && ((be.Op == token.LSS && !fc.Truth) || (be.Op == token.GEQ && fc.Truth) || (be.Op == token.EQL && fc.Truth) || (be.Op == token.NEQ && !fc.Truth)) {
+			if isBin && fc.Tag == nil && mentionsLenOfVia(f, fc.Expr, f.ParamObj(0)) && ((be.Op == token.LSS && !fc.Truth) || (be.Op == token.GEQ && fc.Truth) || (be.Op == token.EQL && fc.Truth) || (be.Op == token.NEQ && !fc.Truth)) {
 				ok = true
 			}
 		}
